@@ -23,7 +23,7 @@ def obligations():
                 mh = MeshHarness(args='  int tgt = 0; (void)tgt;', pre_assume='  __CPROVER_assume(gc_uids_distinct(&m));',
                                  snap='  witness(&o, 0, 0, 0, 0);\n  COVER(m.n_deleted_edges_ + m.n_deleted_faces_ + m.n_deleted_cells_ + m.n_deleted_vertices_ >= 1, "something to collect");\n  COVER(m.n_deleted_faces_ >= 1 && m.cells_.size == 2, "deleted face among two cells");',
                                  call='  ' + call, post='\n'.join(post), op=op)
-                obs.append(Ob(id='C04.' + n, props=['C04', 'C02', 'C03', 'C12'], quick_for=['C04'] if (fn == 'collect_garbage' and on in ('', 'f') and (fast or on)) else [], tu='kernel', tier='B',
+                obs.append(Ob(id='C04.' + n, props=['C04', 'C02', 'C03', 'C12'], quick_for=['C04'] if (fn == 'collect_garbage' and on in ('', 'f') and fast) else [], tu='kernel', tier='B',
                               roots=[TK + '::collect_garbage', TK + '::enable_deferred_deletion'], harness=mh, stubs=REORDER_STUB,
                               includes=['wf.h', 'view.h', 'gc_spec.h'], copies=[TK], defines=d, unwind=UW(d), covers=2, timeout=3000,
                               bounds=dict(vertices=2 if not on else 1, edges=2 if not on else 1, faces=2, cells=2, face_valence=2, cell_valence=2, incident_list=2),
